@@ -480,10 +480,16 @@ class _Exporter:
                 x = x.name
             return self._translate_onnx_var(x)
 
+        def to_ref(x):
+            # The right-hand side may be a constant that was inlined.
+            if isinstance(x, ValueInfoProto):
+                x = x.name
+            return self._translate_onnx_var_ref(x)
+
         sindent = _SINGLE_INDENT * indent
 
         def assign(lhs_var: str, rhs_var: str):
-            return f"{sindent}{to_var(lhs_var)} = {to_var(rhs_var)}"
+            return f"{sindent}{to_var(lhs_var)} = {to_ref(rhs_var)}"
 
         if isinstance(lhs, (str, ValueInfoProto)):
             return [assign(lhs, rhs)]
@@ -503,7 +509,7 @@ class _Exporter:
         onnx_iter_var = body.input[0].name
         if has_input(node, 0):
             use_iter_var = True
-            n_iter = self._translate_onnx_var(node.input[0])
+            n_iter = self._translate_onnx_var_ref(node.input[0])
         else:
             use_iter_var = _is_used_in_graph_body(onnx_iter_var, body)
             n_iter = None
@@ -714,7 +720,7 @@ class _Exporter:
         self._name_remappings.append({})
         for node in funproto.node:
             add_line(self._translate_node(node, opsets, indent=1))
-        return_values = ", ".join(self._translate_onnx_var(x) for x in funproto.output)
+        return_values = ", ".join(self._translate_onnx_var_ref(x) for x in funproto.output)
         add_line(f"    return {return_values}")
         self._name_remappings.pop()
         return "\n".join(result)
@@ -743,7 +749,7 @@ class _Exporter:
         # the signature then uses the same renaming as the body.
         self._name_remappings.append({})
         body = self._translate_graph_body(graph, opsets, indent=indent_level)
-        return_values = ", ".join(self._translate_onnx_var(x) for x in graph.output)
+        return_values = ", ".join(self._translate_onnx_var_ref(x.name) for x in graph.output)
         self._name_remappings.pop()
         signature = _translate_signature(graph.input, graph.output, self._translate_onnx_var)
         add(f"{indent}@script()")
